@@ -36,6 +36,10 @@ type c09Params struct {
 	// flood: after completion
 	Flood string `json:"flood,omitempty"`
 	Mid   bool   `json:"mid,omitempty"` // flood after Step honest messages instead of after completion
+	// certs: the server's client-authentication policy (1..5)
+	Policy int `json:"policy,omitempty"`
+	// ReadFrom (dtlcp): after the handshake the application reads with ReadFrom instead of Read
+	ReadFrom bool `json:"read_from,omitempty"`
 	N     int    `json:"n,omitempty"`
 	// certs: certificate list with foreign key types
 	Certs []string `json:"certs,omitempty"`
@@ -44,7 +48,7 @@ type c09Params struct {
 func (c09) ID() string    { return "C09" }
 func (c09) Level() string { return "exploration" }
 func (c09) Rule() string {
-	return "each case: stack x role of the real endpoint x suite x client-auth, and one hostile behaviour of an otherwise honest scripted peer drawn from the seed: (mutate) one handshake message truncated at a drawn length / extended / with a byte flipped / with a length-looking field overwritten / replaced by 0-8 arbitrary bytes; (raw) arbitrary or structured garbage records after k honest messages; (certs) certificate lists with RSA, P-256 and Ed25519 keys in either position; (flood) after completion or after k honest messages: handshake records, empty records, warning alerts, huge-fragment announcements, many message sequence numbers, fragments that disagree about the total length (DTLCP), the header of a 16 MiB message packed behind an honest message followed by its body (stream). Oracle: no task panics, the endpoint yields within the watchdog and finishes or blocks waiting for input within the step budget, and the hook-reported buffered bytes stay within (65536+4 + one record) + (two records of read-ahead) on the stream stack and 256 reassembly buffers of <= 64 KiB on the datagram stack. distinct = distinct (parameters); non-trivial = the hostile bytes were delivered to a live endpoint"
+	return "each case: stack x role of the real endpoint x suite x client-auth, and one hostile behaviour of an otherwise honest scripted peer drawn from the seed: (mutate) one handshake message truncated at a drawn length / extended / with a byte flipped / with a length-looking field overwritten / replaced by 0-8 arbitrary bytes; (raw) arbitrary or structured garbage records after k honest messages; (certs) certificate lists with RSA, P-256 and Ed25519 keys in either position; (flood) after completion or after k honest messages: handshake records, empty records, warning alerts, huge-fragment announcements, many message sequence numbers, fragments that disagree about the total length, records of the previous epoch (DTLCP; the application reads with Read or ReadFrom), the header of a 16 MiB message packed behind an honest message followed by its body (stream). Oracle: no task panics, the endpoint yields within the watchdog and finishes or blocks waiting for input within the step budget, and the hook-reported buffered bytes stay within (65536+4 + one record) + (two records of read-ahead) on the stream stack and 256 reassembly buffers of <= 64 KiB on the datagram stack. distinct = distinct (parameters); non-trivial = the hostile bytes were delivered to a live endpoint"
 }
 func (c09) Components() (real, stub []string) {
 	return []string{"tlcp/dtlcp client and server (instrumented): record layer, message parsers, key agreement, reassembly"},
@@ -106,9 +110,10 @@ func drawC09(src *vs.Src) *c09Params {
 		for i := 0; i < n; i++ {
 			p.Certs = append(p.Certs, pool[src.Intn(len(pool))])
 		}
+		p.Policy = 1 + src.Intn(5)
 	default:
 		p.Mode = "flood"
-		p.Flood = pickStr(src, []string{"handshake", "empty-app", "warning", "hello-request", "big-fragments", "many-seqs", "tiny-fragments", "coalesced-oversize", "length-conflict"})
+		p.Flood = pickStr(src, []string{"handshake", "empty-app", "warning", "hello-request", "big-fragments", "many-seqs", "tiny-fragments", "coalesced-oversize", "length-conflict", "old-epoch"})
 		p.N = 20 + src.Intn(300)
 		if src.Bool(1, 2) {
 			// the flood arrives in the middle of the handshake, after Step honest messages (that is when a
@@ -118,6 +123,7 @@ func drawC09(src *vs.Src) *c09Params {
 			p.N = 20 + src.Intn(700)
 		}
 	}
+	p.ReadFrom = p.Stack == DTLCP && src.Bool(1, 2)
 	return p
 }
 
@@ -228,6 +234,9 @@ func (c09) Run(c *Case, src *vs.Src) *Result {
 			rc.SkipVerify = true // get past chain building so that the key types reach the handshake code
 		} else {
 			rc.Auth = 2
+			if p.Policy > 0 {
+				rc.Auth = p.Policy
+			}
 		}
 	}
 	h := NewHalf(p.Stack, env, rc, realIsClient, "real")
@@ -272,7 +281,13 @@ func (c09) Run(c *Case, src *vs.Src) *Result {
 			buf := make([]byte, 4096)
 			for i := 0; i < 100000; i++ {
 				h.Real.SetReadDeadline(vs.Now().Add(3 * time.Second))
-				if _, err := h.Real.Read(buf); err != nil {
+				var err error
+				if p.ReadFrom && h.DReal != nil {
+					_, _, err = h.DReal.ReadFrom(buf)
+				} else {
+					_, err = h.Real.Read(buf)
+				}
+				if err != nil {
 					readErr = err
 					break
 				}
@@ -460,6 +475,16 @@ func c09Flood(pr *peer.Peer, p *c09Params, sample func()) {
 				}
 			} else {
 				err = pr.WriteRecord(ref.RecHandshake, []byte{ref.TCertificate, 0, 0, 10, 1, 2, 3})
+			}
+		case "old-epoch":
+			// records of the epoch before the current one (like a retransmitted last flight), then data
+			if pr.DTLS {
+				err = pr.T.Send(ref.BuildRecord(true, ref.RecCCS, pr.Vers, 0, uint64(40+i), []byte{1}))
+				if err == nil && i%8 == 7 {
+					err = pr.SendApp([]byte("data behind old-epoch records"))
+				}
+			} else {
+				err = pr.SendAlert(1, 90)
 			}
 		case "tiny-fragments":
 			m := ref.Msg{Type: ref.TCertificate, Seq: 3000, Body: make([]byte, 2000)}
